@@ -155,7 +155,7 @@ def run(chk):
                       'InitialSample': 'InitialSampleIsSpec'}.get(ev.get('ev'), 'LoopStepExplained')
             causes = set()
             for e in rec['unmatched'] or list(rec['kept']):
-                causes |= rr.char_causes(e, rec['kw'].get('dialect', 'portable'), rec['rex'])
+                causes |= rr.char_causes(e, rec['kw'].get('dialect', 'portable'), list(rec['rex']) + list(ev.get('rextexts', [])))
             if clause == 'BatchCoversWorkingSet' and causes:
                 sig = {'kind': 'rex-unmatched', 'clause': 'Covered', 'cause': primary(causes), 'all_causes': '+'.join(sorted(causes))}
             else:
